@@ -74,6 +74,9 @@ class C04(Prop):
                 if h["fetch_attempts"].get(i, 0) > 3 and inside:
                     res.append(("agent:too-many-fetch-attempts", "request %s was fetched %d times" % (i, h["fetch_attempts"][i]), rp))
         res += servsched.oracle_crash(obs["server"])
+        # IDs that repeat (within one proxy life or across restarts) make the agent's record of IDs it has already
+        # dispatched suppress a new request: listed as pending, never forwarded
+        res += servsched.oracle_ids(obs["server"])
         for s in obs["server"]["schedules"]:
             res += servsched.oracle_handoff(s)
         return res
